@@ -14,6 +14,7 @@ import (
 //	set(field,v)      numeric fields (<= 4 bytes): a menu of values incl. 0, +-1, boundaries, known type codes
 //	                  (thorough: all 256 values of one-byte fields, 0..300 and 2^k+-1 for two-byte fields)
 //	flip/zero/ones    first-bit flip, last-bit flip, 00-fill, ff-fill of every region
+//	padkey/padvalue   a strippable byte (NUL, blank, tab, newline, DEL) inserted at either end of a mapping pair's key or value, lengths adjusted
 //	grow(field,k)     k junk bytes appended inside a length-delimited region and the length bumped (k=1..6)
 //	shrinklen(field)  length field decreased by one with the data left in place
 //	ins/del           one byte inserted / deleted at every region start
@@ -246,6 +247,59 @@ func Mutations(s []byte, regs []refmodel.Region, allCuts bool, emit func(class, 
 				b := append(append(append([]byte(nil), s[:dataEnd]...), junk...), s[dataEnd:]...)
 				copy(b[r.Off:], refmodel.BE(cur+uint64(k), 2))
 				emit(fmt.Sprintf("grow(%s,%d)", cls, k), r.Name, b)
+			}
+			// a byte that a "cleaning" parser might strip (NUL, blank, tab, newline, DEL) inserted at the start or the end
+			// of a pair's key or value, with the string's length byte and the mapping's size adjusted: a different,
+			// well-formed mapping
+			if strings.HasSuffix(r.Name, ".size") && cur+1 <= 65535 {
+				body := r.Off + 2
+				type str struct{ lenAt, n int }
+				var strs []str
+				okWalk := true
+				for p := body; p < dataEnd; {
+					var pair [2]str
+					for h := 0; h < 2 && okWalk; h++ {
+						if p >= dataEnd {
+							okWalk = false
+							break
+						}
+						n := int(s[p])
+						if p+1+n+1 > dataEnd {
+							okWalk = false
+							break
+						}
+						pair[h] = str{p, n}
+						p += 1 + n + 1 // length byte, content, '=' or ';'
+					}
+					if !okWalk {
+						break
+					}
+					strs = append(strs, pair[0], pair[1])
+				}
+				if okWalk && len(strs) > 0 {
+					pick := map[int]bool{0: true, 1: true, len(strs) - 1: true, len(strs) - 2: true}
+					for si, st := range strs {
+						if !pick[si] || st.n >= 255 {
+							continue
+						}
+						what := "key"
+						if si%2 == 1 {
+							what = "value"
+						}
+						for _, pad := range []byte{0x00, ' ', '\t', '\n', 0x7f} {
+							for _, atEnd := range []bool{true, false} {
+								at := st.lenAt + 1
+								if atEnd {
+									at += st.n
+								}
+								b := append(append(append([]byte(nil), s[:at]...), pad), s[at:]...)
+								b[st.lenAt]++
+								copy(b[r.Off:], refmodel.BE(cur+1, 2))
+								emit(fmt.Sprintf("pad%s(%s,%02x,end=%v)", what, cls, pad, atEnd), r.Name, b)
+							}
+						}
+					}
+				}
 			}
 			// a well-formed extra pair smuggled into a mapping
 			if strings.HasSuffix(r.Name, ".size") && cur+6 <= 65535 {
